@@ -351,6 +351,21 @@ pub fn check(c: &Case, obs: &mut Obs) -> Verdict {
                 }
             }
             // (b) legs acquired after the event date keep their cost; so do other securities' legs
+            let emptied_before: Option<NaiveDate> = model::aggregate(base, &NoFx).ok().and_then(|agg| {
+                let mut z = None;
+                let mut h = Rat::zero();
+                for d in agg.get(&tk)?.iter() {
+                    if d.date >= date {
+                        break;
+                    }
+                    h = (&h + &d.b - &d.s) * &d.ratio;
+                    if h.is_zero() && d.s.is_pos() {
+                        z = Some(d.date);
+                    }
+                }
+                z
+            });
+            obs.class_if(emptied_before.is_some(), "holding_emptied_before_the_event");
             let d0 = tool::all_disposals(&r0);
             let d1 = tool::all_disposals(&r1);
             if d0.len() != d1.len() {
@@ -367,10 +382,16 @@ pub fn check(c: &Case, obs: &mut Obs) -> Verdict {
                     if (q - q2).abs() > tool::tol_qty() * q.abs().max(Rat::one()) {
                         return Verdict::fail(format!("event changed a matched quantity in {} {}: {q} vs {q2}", a.ticker, a.date));
                     }
-                    let unaffected = a.ticker != tk || k.1.map(|acq| acq > date).unwrap_or(false);
+                    // shares sold on or before a day that ended with nothing held were not
+                    // "already held" when the event came: their legs keep their cost too
+                    // (a 30-day leg reaching past that day is left out: the tool counts shares per
+                    // acquisition lot, so the later acquisition counts as held at the event)
+                    let unaffected = a.ticker != tk
+                        || k.1.map(|acq| acq > date).unwrap_or(false)
+                        || emptied_before.map(|z| a.date <= z && k.1.map(|acq| acq <= z).unwrap_or(true)).unwrap_or(false);
                     if unaffected && (cst - c2).abs() > tool::tol_money() {
                         return Verdict::fail(format!(
-                            "{} {}: leg {:?} (acquired after the event of {date}, or other security) changed cost {cst} -> {c2}\n{}",
+                            "{} {}: leg {:?} (acquired after the event of {date}, or sold before the holding was emptied, or other security) changed cost {cst} -> {c2}\n{}",
                             a.ticker,
                             a.date,
                             k,
